@@ -67,7 +67,7 @@ fn catalogue_cases(tier: Tier) -> Vec<Scenario> {
     out
 }
 
-fn sampled(rng: &mut Rng) -> Scenario {
+fn sampled(rng: &mut Rng, c08: bool) -> Scenario {
     let m = gen_method(rng);
     let (mut sc, p) = gen_admissible(rng, m, ProbClass::Smooth, Entry::High, 20_000, &mut |rng, sc| {
         if sc.method == Meth::RK4 {
@@ -79,6 +79,13 @@ fn sampled(rng: &mut Rng) -> Scenario {
     sc.dense = true;
     let n = sc.prob.dim();
     let nsteps = p.grid.len() - 1;
+    // C08 also covers runs whose output is filtered by first_step (C09's observation mode excludes
+    // them: such runs are blocked there). Roots are then biased to lie before x0 + first_step,
+    // where the handler skips outputs.
+    let with_first_step = c08 && sc.method != Meth::RK4 && rng.bool(0.25);
+    if with_first_step {
+        sc.first_step = Some(sc.dir() * sc.span() * rng.logu(1e-3, 0.6));
+    }
     if rng.bool(0.2) {
         // forced rejections diversify the step history
         for _ in 0..rng.int(1, 3) {
@@ -99,8 +106,13 @@ fn sampled(rng: &mut Rng) -> Scenario {
             2 => 0.0,
             _ => rng.uni(0.01, 0.99),
         };
-        let c = lerp(p.grid[s], p.grid[s + 1], th);
-        let kind = match rng.int(0, 6) {
+        let mut c = lerp(p.grid[s], p.grid[s + 1], th);
+        if let (true, Some(h0)) = (with_first_step && rng.bool(0.6), sc.first_step) {
+            c = sc.x0 + h0 * rng.uni(0.02, 0.98);
+        }
+        // (with first_step the accepted grid is not observable, so the single-root precondition of
+        // the direction clause can only be guaranteed for functions with one root overall)
+        let kind = match if with_first_step { 0 } else { rng.int(0, 6) } {
             0 | 1 | 2 => EvKind::Time { c },
             3 => {
                 let i = rng.int(0, n - 1);
@@ -191,7 +203,7 @@ impl Prop for C09 {
         (0..CHUNK)
             .map(|j| {
                 let mut rng = Rng::new(mix(seed, "C09", (item - 1) * CHUNK + j));
-                sampled(&mut rng)
+                sampled(&mut rng, false)
             })
             .collect()
     }
@@ -306,7 +318,7 @@ impl Prop for C08 {
         (0..CHUNK)
             .map(|j| {
                 let mut rng = Rng::new(mix(seed, "C08", (item - 1) * CHUNK + j));
-                sampled(&mut rng)
+                sampled(&mut rng, true)
             })
             .collect()
     }
